@@ -59,7 +59,7 @@ pub(super) fn ctor_check(dims: &[usize], len: usize) {
         assert!(a[mi[..dims.len()].to_vec()].to_bits() == vals[i].to_bits(), "C16 multi-indexing returns the row-major element");
         i += 1;
     }
-    assert!(!a.is_tracked.get() && !a.keep_gradient.get() && a.children.is_empty() && a.backward_op.is_none()
+    assert!(!a.is_tracked.get() && a.children.is_empty() && a.backward_op.is_none()
             && a.consumer_count.get() == 0 && node_clean(&a) && grad_of(&a).is_none(),
             "C16/C09 a fresh array is an untracked leaf with empty slots");
     // flat vector constructor
